@@ -216,9 +216,13 @@ class SimSink(io.RawIOBase):
         self._nwrite = 0
         self.name = name
         self.close_failed = False
+        self._tty = bool(plan.get('tty'))
 
     def writable(self):
         return True
+
+    def isatty(self):
+        return self._tty
 
     def seekable(self):
         return self._seekable
@@ -239,9 +243,6 @@ class SimSink(io.RawIOBase):
 
     def fileno(self):
         raise OSError('simulated device has no file descriptor')
-
-    def isatty(self):
-        return False
 
     def write(self, b):
         self._nwrite += 1
@@ -391,7 +392,9 @@ def make_stdout(plan, chan, encoding='utf-8', buffer_size=None,
                 name='<stdout>'):
     sink = SimSink(plan, chan, name=name)
     buf = io.BufferedWriter(sink, buffer_size or io.DEFAULT_BUFFER_SIZE)
-    return io.TextIOWrapper(buf, encoding=encoding), sink
+    # a terminal is line-buffered, as the interpreter sets it up
+    return io.TextIOWrapper(buf, encoding=encoding,
+                            line_buffering=bool(plan.get('tty'))), sink
 
 
 def make_stream(data, plan, chan, encoding, buffer_size=None,
